@@ -401,11 +401,26 @@ def u_ppp(ctx, second, weighted):
     R, I = z3.RealSort(), z3.IntSort()
     CNT = z3.Function("CNT", I, I, R)      # (bin, scale)
     SW1, SW2 = z3.Function("SW1", I, R), z3.Function("SW2", I, R)
+    NR1, NR2 = z3.Function("NR1", I, I), z3.Function("NR2", I, I)
     name = "C01/process_patch_pair"
+    t_, s_ = bv("t"), bv("s")
+    ctx.assume(forall([t_, s_], z3.And(NR1(t_) >= 0, NR2(t_) >= 0, z3.Implies(NR1(t_) == 0, z3.And(SW1(t_) == 0, CNT(t_, s_) == 0)),
+                                       z3.Implies(NR2(t_) == 0, SW2(t_) == 0),
+                                       z3.Implies(NR2(t_ if second == "binned" else z3.IntVal(-1)) == 0, CNT(t_, s_) == 0)), patterns=[CNT(t_, s_)]),
+               "type:AngularTree invariant (a tree without records has no weight and no pairs)")
+    ctx.assume(forall([t_], z3.And(NR1(t_) >= 0, NR2(t_) >= 0, z3.Implies(NR1(t_) == 0, SW1(t_) == 0), z3.Implies(NR2(t_) == 0, SW2(t_) == 0)),
+                      patterns=[NR1(t_)]), "type:AngularTree invariant (a tree without records has no weight)")
+    ctx.assume(forall([t_], z3.And(NR2(t_) >= 0, z3.Implies(NR2(t_) == 0, SW2(t_) == 0)), patterns=[NR2(t_)]), "type:AngularTree invariant (a tree without records has no weight)")
 
     class Tree:
         def __init__(self, side, b):
             self.side, self.b = side, b
+
+        @property
+        def num_records(self):
+            if self.side == 1:
+                return SNum(NR1(to_term(self.b)))
+            return SNum(NR2(to_term(self.b))) if self.b is not None else SNum(NR2(z3.IntVal(-1)))
 
         @property
         def sum_weights(self):
@@ -444,8 +459,13 @@ def u_ppp(ctx, second, weighted):
         t, s = bv("t"), bv("s")
         bc, s1, s2 = L.binned_counts._elem, L.sum_weights1._elem, L.sum_weights2._elem
         sw2 = (lambda x: SW2(x)) if second == "binned" else (lambda x: SW2(z3.IntVal(-1)))
-        return SBool(z3.ForAll([t, s], z3.Implies(z3.And(t >= 0, t < to_term(L.j), s >= 0, s < S.t),
-                                                   z3.And(bc(s, t) == CNT(t, s), s1(t) == SW1(t), s2(t) == sw2(t)))))
+        ob, o1, o2 = L.old.binned_counts._elem, L.old.sum_weights1._elem, L.old.sum_weights2._elem
+        return dict(filled=SBool(z3.ForAll([t, s], z3.Implies(z3.And(t >= 0, t < to_term(L.j), s >= 0, s < S.t),
+                                                               z3.And(bc(s, t) == CNT(t, s), s1(t) == SW1(t), s2(t) == sw2(t))))),
+                    # frame: the columns of the bins not visited yet still hold what they held before the loop (zeros, if the
+                    # arrays were created with zeros)
+                    untouched=SBool(z3.ForAll([t, s], z3.Implies(z3.And(t >= to_term(L.j), t < nb.t, s >= 0, s < S.t),
+                                                                  z3.And(bc(s, t) == ob(s, t), s1(t) == o1(t), s2(t) == o2(t))))))
     pair = M.PatchPair(ctx.fresh_int("id1", lo=0), ctx.fresh_int("id2", lo=0), "P1", "P2")
     with Patches() as pt, use_loops({PPP_SITE: LoopSpec(inv=inv)}):
         pt.set(M, "BinnedTrees", BT)
